@@ -41,7 +41,7 @@ def roundtrip(stage: str, scfg: Any, inp: Any) -> Dict[str, Any]:
 
     out: Dict[str, Any] = {}
     for path in ("dict", "yaml"):
-        rec: Dict[str, Any] = {"excw": "", "excr": "", "excw2": "", "excr2": "", "H2": {}, "H3": {}, "root2": "", "d1": {}, "d2": {}}
+        rec: Dict[str, Any] = {"excw": "", "excr": "", "excw2": "", "excr2": "", "H2": {}, "H3": {}, "root2": "", "d1": {}, "d2": {}, "ord2": {}}
         try:
             d1 = scfg.to_dict() if path == "dict" else scfg.to_yaml()
         except Exception as e:
@@ -52,7 +52,7 @@ def roundtrip(stage: str, scfg: Any, inp: Any) -> Dict[str, Any]:
         try:
             g2, _ = SCFG.from_dict(d1) if path == "dict" else SCFG.from_yaml(d1)
             st2 = project(g2)
-            rec["H2"], rec["root2"] = st2["H"], st2["root"]
+            rec["H2"], rec["root2"], rec["ord2"] = st2["H"], st2["root"], st2["ord"]
         except Exception as e:
             rec["excr"] = exc_sig(e)
             out[path] = rec
@@ -70,6 +70,31 @@ def roundtrip(stage: str, scfg: Any, inp: Any) -> Dict[str, Any]:
         except Exception as e:
             rec["excr2"] = exc_sig(e)
         out[path] = rec
+    return out
+
+
+def canon_dict(d: Dict[str, Any]) -> Dict[str, Any]:
+    """The written dictionary in the canonical form of SerialImpl.tla (total records)."""
+    out = {}
+    for n, b in d["blocks"].items():
+        out[n] = {"type": b["type"], "kind": b.get("kind", ""), "contains": list(b.get("contains", [])), "header": b.get("header", ""),
+                  "exiting": b.get("exiting", ""), "parent": b.get("parent_region", ""), "var": b.get("variable", ""),
+                  "tab": [[int(k), v] for k, v in b.get("branch_value_table", {}).items()],
+                  "asg": [[k, int(v)] for k, v in b.get("variable_assignment", {}).items()],
+                  "begin": b.get("begin", -1), "end": b.get("end", -1), "edges": list(d["edges"].get(n, [])), "backedges": list(d["backedges"].get(n, []))}
+    return out
+
+
+def serial_cases(case: Dict[str, Any]):
+    """derive: one SerialImpl case per stage (dictionary path): H, the written dictionary, the re-read state and its dict order."""
+    out = []
+    for st in case.get("stages", []):
+        hk = (st.get("hook") or {}).get("dict")
+        if not hk or hk["excw"] or hk["excr"] or not isinstance(hk["d1"], dict):
+            continue
+        if any(b["k"] == "ast" for b in st["H"].values()):
+            continue
+        out.append({"root": case["root"], "H": st["H"], "D": canon_dict(hk["d1"]), "root2": hk["root2"], "H2": hk["H2"], "ord2": hk["ord2"]})
     return out
 
 
